@@ -143,6 +143,33 @@ NO_SRC = set(ARENA_FAMILIES['fill']['fns'] + ARENA_FAMILIES['xform']['fns'])
 
 OSENV_PROPS = {"C01", "C02", "C03", "C04", "C05", "C06", "C08"}
 
+# memory-safety observations of the engines that own another property: a write outside dest seen by the normalization or
+# conversion engine is a C01 violation as well (a read fault a C02 violation); those engines place dest / src against guard pages
+SAFETY_WHY = {"C01": ("write_fault", "write_outside_dest", "write_in_front_of_dest"), "C02": ("fault_r", "read_fault")}
+
+
+def _is_safety(prop, why):
+    return any(why == w or why.endswith(":" + w) or why.endswith(w) for w in SAFETY_WHY.get(prop, ()))
+
+
+def add_safety(prop, tier, seed, workdir, res):
+    if prop not in SAFETY_WHY:
+        return res
+    extra = 0
+    for name, fn, owner in (("norm", norm.run, "C17"), ("mbs", mbs.run, "C15")):
+        sub = fn(owner, tier, seed, workdir)
+        extra += sub.coverage.get("evaluations", 0)
+        for v in sub.violations:
+            why = v["replay"].get("why", "")
+            if _is_safety(prop, why):
+                res.violations.append(v)
+    res.coverage["safety_events_from_norm_and_mbs"] = extra
+    res.coverage["evaluations"] = res.coverage.get("evaluations", 0) + extra
+    res.coverage["traces_validated_against_impl"] = res.coverage.get("traces_validated_against_impl", 0) + extra
+    res.coverage["rule"] += ("; plus the memory-safety observations (dest and source flush against inaccessible pages, every dmax from 1 upwards) of the "
+                             "normalization / case-folding sweep (TraceNorm) and the multibyte conversion sweep (TraceMbs)")
+    return res
+
 
 def run_arena_and_printf(prop, tier, seed, workdir):
     res = run_arena(prop, tier, seed, workdir)
@@ -150,6 +177,7 @@ def run_arena_and_printf(prop, tier, seed, workdir):
     res.coverage["rule"] += "; plus the formatted-output family (GenPrintf/TracePrintf, see coverage.printf_cases)"
     if prop in OSENV_PROPS:
         osenv.run_props(prop, tier, seed, workdir, res)
+    add_safety(prop, tier, seed, workdir, res)
     return res
 
 
@@ -157,6 +185,7 @@ def run_arena_and_os(prop, tier, seed, workdir):
     res = run_arena(prop, tier, seed, workdir)
     if prop in OSENV_PROPS:
         osenv.run_props(prop, tier, seed, workdir, res)
+    add_safety(prop, tier, seed, workdir, res)
     return res
 
 
@@ -191,10 +220,11 @@ def replay(prop, path, workdir):
         return erase.replay(rp, workdir)
     elif rp["kind"] == "ts":
         return ts.replay(rp, workdir)
-    elif rp["kind"] == "mbs":
-        return mbs.replay(rp, workdir)
-    elif rp["kind"] == "norm":
-        return norm.replay(rp, workdir)
+    elif rp["kind"] in ("mbs", "norm"):
+        sub = mbs.replay(rp, workdir) if rp["kind"] == "mbs" else norm.replay(rp, workdir)
+        if prop in SAFETY_WHY:      # replayed for C01 / C02: only the memory-safety observation counts
+            sub.violations = [v for v in sub.violations if _is_safety(prop, v["cluster"])]
+        return sub
     elif rp["kind"] == "sort":
         return sort.replay(rp, workdir)
     elif rp["kind"] == "alloc":
